@@ -14,9 +14,13 @@ PsOf(r) == [c \in DOMAIN r.ps |-> PinOf(r.ps[c])]
 \* The repository's mock IPFS daemon (test/ipfs_mock.go) records every pin/add as recursive (it reads a
 \* "type" parameter the connector does not send), so the end-to-end judgement is on pinned / not pinned;
 \* modes are judged at the tracker (C05 replay) and connector (C16) levels.
-PinnedOnly(ps, ip, live) ==
-    \A p \in live : \A c \in DOMAIN ps : (ip[p][c] # "none") <=> (AssignedMode(ps[c], p) # "none")
-BadE2E == {i \in 1..N : Recs[i].settled /\ ~PinnedOnly(PsOf(Recs[i]), Recs[i].ipfs, Rng(Recs[i].up))}
+\* Tolerated by design (C05 statement, Cluster.tla `left`): a pin that moved to other peers while this peer's
+\* daemon was failing may stay pinned locally (the unpin of a remote pin is best effort and is not retried).
+PinnedOnly(ps, ip, live, outage) ==
+    \A p \in live : \A c \in DOMAIN ps :
+        \/ (ip[p][c] # "none") <=> (AssignedMode(ps[c], p) # "none")
+        \/ (p \in outage /\ ps[c].k = "pin" /\ AssignedMode(ps[c], p) = "none")
+BadE2E == {i \in 1..N : Recs[i].settled /\ ~PinnedOnly(PsOf(Recs[i]), Recs[i].ipfs, Rng(Recs[i].up), Rng(Recs[i].outage))}
 \* stored allocations are never empty for a non-everywhere pin and hold at most max LIVE peers
 \* (C03 counts healthy holders: a dead holder may stay listed while the minimum is still met)
 BadAlloc == {i \in 1..N : \E c \in DOMAIN Recs[i].ps :
